@@ -125,6 +125,18 @@ def run(prog, tier, extra=None):
         for bb, t in body.calls():
             if (call_name(t) or "").endswith(WORK_FN):
                 return bb, [ch.origin(a) for a in t["args"]]
+        # the computation may have been moved into a private helper (`self.has_adequate_routing_work(prev, heartbeat)`):
+        # read it there, with the helper's parameters replaced by the arguments of the call
+        for bb, t in body.calls():
+            helper = prog.bodies.get(t.get("res") or t.get("callee") or "")
+            if helper is None or helper.is_promoted or helper.path == body.path:
+                continue
+            hch = None
+            for hb, ht in helper.calls():
+                if (call_name(ht) or "").endswith(WORK_FN):
+                    hch = hch or Chaser(helper)
+                    outer = [ch.origin(a) for a in t["args"]]
+                    return bb, [gate.subst_params(hch.origin(a), outer) for a in ht["args"]]
         return None, None
     vbb, vargs = work_args(vb, vch)
     bch = Chaser(cb)
